@@ -145,7 +145,7 @@ def predictBucket (pagesize : Nat) (pre : CTree) (notes : List Note) (touched : 
     | .rb pg st => if pages.contains pg then some st else none
     | .split _ => none)
   let L := Gen.layout
-  commitTree Gen.params pagesize L.pageSize L.leafSize L.branchSize L.bmSize steps touched pre
+  commitTree Gen.params pagesize L.pageSize L.leafSize L.branchSize (entSize L.bmSize) steps touched pre
 
 /-- the reported steps that concern this bucket -/
 def rbStepsFor (pre : CTree) (notes : List Note) : List RbStep :=
@@ -172,7 +172,7 @@ end
 
 /-- every page (with overflow runs, computed from the node contents) of a bucket and of the buckets below it -/
 partial def viewRuns (pagesize : Nat) (v : BucketView) : List Nat :=
-  treeRuns Gen.layout pagesize (asStoredT v.tree) ++ v.subs.flatMap (fun s => viewRuns pagesize s.2)
+  treeRuns Gen.layout pagesize (entSize Gen.layout.bmSize) (asStoredT v.tree) ++ v.subs.flatMap (fun s => viewRuns pagesize s.2)
 
 def pathStr (path : List Bytes) : String := if path.isEmpty then "-" else "/".intercalate (path.map hex)
 
@@ -206,12 +206,12 @@ partial def predictFreed (pagesize : Nat) (pretrees : List (String × Bool × CT
         -- (the runs of the nodes the transaction changed are those of the stored tree it started from: a
         -- node that shrank still occupies its old run until it is rewritten)
         if effDirty pretrees path then
-          commitFreed Gen.layout pagesize (asStoredT old.tree) (predictBucket pagesize pre notes (touchedKeys pretrees newRoot path))
+          commitFreed Gen.layout pagesize (entSize Gen.layout.bmSize) (asStoredT old.tree) (predictBucket pagesize pre notes (touchedKeys pretrees newRoot path))
         else []
       | none => []
     own ++ old.subs.flatMap (fun s => predictFreed pagesize pretrees notes newRoot (path ++ [s.1]) s.2)
 
 /-- sizes (in pages) of the runs the model requests for the tree nodes it writes -/
-def predictRequests (pagesize : Nat) (post : CTree) : List Nat := treeRequests Gen.layout pagesize post
+def predictRequests (pagesize : Nat) (post : CTree) : List Nat := treeRequests Gen.layout pagesize (entSize Gen.layout.bmSize) post
 
 end Driver
